@@ -11,6 +11,7 @@ From Coq Require Import List NArith ZArith Bool.
 Import ListNotations.
 From LCC Require Import Base.Util Model.Report Model.Events Model.Writer Model.Prefix Model.Saving Model.CrashFS.
 From LCC Require Import Proofs.PrefixP Proofs.SavingP.
+From LCC Require Proofs.WriterOrderP Proofs.LinearizeP Proofs.AdmissibleOrderP.
 From LCC Require gen.TablesSaving.
 
 (* ---- the order --------------------------------------------------------------------------------------------------------- *)
@@ -71,6 +72,43 @@ Theorem C10_every_snapshot_prefix_of_final : forall evs k wk wfinal,
   le_report (normalize wk) (normalize wfinal).
 Proof. exact every_snapshot_prefix_of_final. Qed.
 Print Assumptions C10_every_snapshot_prefix_of_final.
+
+(* the hypothesis `all_admissible` (the bracket discipline of C07) need only be established for ONE linearization of a run: it is
+   invariant under reordering of independent events (Proofs/AdmissibleOrderP.v).  `indep_adm` = the writer's independence,
+   minus the pairs whose order admissibility itself reads: the session start / end, and a SuiteEnd against everything inside
+   that suite (each exclusion is forced: counter-examples AdmissibleOrderP.Cex).  Two streams of the same tagged events that
+   order every dependent pair the same way are both admissible or both not; in particular the stream of a parallel run and
+   its sequential rearrangement (the form the check evaluates on recorded pairs of runs). *)
+Theorem C10_bracket_discipline_invariant_under_reordering :
+  forall (s1 s2 : list (nat * event)) w1,
+  NoDup (map fst s1) -> Permutation.Permutation s1 s2 ->
+  (forall x y, AdmissibleOrderP.indep_adm (snd x) (snd y) = false -> LinearizeP.before x y s1 -> LinearizeP.before x y s2) ->
+  apply_all init_wstate (map snd s1) = Ok w1 -> WriterOrderP.all_aligned init_wstate (map snd s1) ->
+  all_admissible init_wstate (map snd s1) = true ->
+  all_admissible init_wstate (map snd s2) = true.
+Proof. exact AdmissibleOrderP.all_admissible_linearizations. Qed.
+Print Assumptions C10_bracket_discipline_invariant_under_reordering.
+
+(* ... fed by a task structure (H1 each task's events keep their order, H2 a task's events follow those of the tasks it depends
+   on, H3 dependent events come from the same task or from ordered tasks), every premise executable *)
+Theorem C10_bracket_discipline_of_every_task_interleaving :
+  forall (task_of : nat -> nat) (orderedb : nat -> nat -> bool) (s1 s2 : list (nat * event)) w1,
+  NoDup (map fst s1) -> Permutation.Permutation s1 s2 ->
+  LinearizeP.preservedb (fun x y => Nat.eqb (task_of (fst x)) (task_of (fst y))) s1 s2 = true ->
+  LinearizeP.startafterb task_of orderedb s1 = true -> LinearizeP.startafterb task_of orderedb s2 = true ->
+  AdmissibleOrderP.coverage_admb task_of orderedb s1 = true ->
+  apply_all init_wstate (map snd s1) = Ok w1 -> WriterOrderP.all_aligned init_wstate (map snd s1) ->
+  all_admissible init_wstate (map snd s1) = true ->
+  all_admissible init_wstate (map snd s2) = true.
+Proof. exact AdmissibleOrderP.all_admissible_task_linearizations_b. Qed.
+Print Assumptions C10_bracket_discipline_of_every_task_interleaving.
+
+(* the writer's own independence is NOT enough for that: a test start swapped behind the end of its suite *)
+Theorem C10_bracket_discipline_needs_the_stronger_independence :
+  exists s1 s2 w1, LinearizeP.teq WriterOrderP.indep s1 s2 /\ apply_all init_wstate s1 = Ok w1 /\
+    WriterOrderP.all_aligned init_wstate s1 /\ all_admissible init_wstate s1 = true /\ all_admissible init_wstate s2 = false.
+Proof. exact AdmissibleOrderP.Cex.indep_not_enough. Qed.
+Print Assumptions C10_bracket_discipline_needs_the_stronger_independence.
 
 (* ---- C10_snapshot_consistent ------------------------------------------------------------------------------------------- *)
 (* writer and file session are listeners called in subscription order by the same handler thread, ReportWriter first
